@@ -663,6 +663,22 @@ def oracle_notes(case):
             t += F(dt)
             notes.append(o_note(e, rests, t, lat, defs))
         return notes, t
+    if prog[0] == 'restart':
+        # first pass: what starts before the stop; second pass: everything again from the beginning
+        tl, total = o_timeline(prog[2], ({}, set()))
+        a, b = F(prog[3]), F(prog[4])
+        for st, e, rests in [x[:3] for x in tl]:
+            if rests or e.get('type') == 'rest':
+                continue
+            if st == a:
+                raise Raise('an event exactly at the stop time: order of wake-ups, outside the oracle')
+            if st < a:
+                notes.append(o_note(e, rests, t0 + st, lat, defs))
+        for st, e, rests in [x[:3] for x in tl]:
+            if rests or e.get('type') == 'rest':
+                continue
+            notes.append(o_note(e, rests, t0 + a + b + st, lat, defs))
+        return notes, t0 + a + b + total
     tl, total = o_timeline(prog[2], ({}, set()))
     for st, e, rests in [x[:3] for x in tl]:
         if rests or e.get('type') == 'rest':
@@ -933,7 +949,7 @@ class Check(common.Check):
         'chain_degree_to_freq', 'chain_degree_to_midinote_steps', 'chain_note_to_midinote_steps',
         'player_plays_timetable', 'player_time_prefix_sums',
         'ppar_preserves_child_timelines', 'pdur_total', 'pdur_passes_prefix', 'player_ids_fresh',
-        'replay_ids_fresh', 'mono_held_single_node', 'mono_one_synth', 'playAllM_plain', 'seq_timetable')]
+        'replay_ids_fresh', 'restart_replays_from_start', 'mono_held_single_node', 'mono_one_synth', 'playAllM_plain', 'seq_timetable')]
     N_QUICK = 2000
     N_THOROUGH = 40000
     ASSUMPTIONS = [
@@ -981,7 +997,14 @@ class Check(common.Check):
             ev = [kv for kv in g.event(defs) if kv[0] not in ('harmonic', 'detune') and kv[1][0] != 's' or kv[0] in ('instrument', 'add_action')]
             plays = [[g.dy(0, 2, (1, 2, 4)), rng.choice(['same', 'same', 'copy'])] for _ in range(rng.randint(1, 3))]
             prog = ['replay', t0, ev, plays]
-        elif x < 0.68:
+        elif x < 0.64:
+            # a composite pattern stopped mid-way and played again with reset=True (no Pmono; the stop time
+            # is off the grid of event times)
+            p = g.pat(defs, 2, False)
+            while p[0] == 'bind' and rng.random() < 0.7:
+                p = g.pat(defs, 2, False)
+            prog = ['restart', t0, p, f'{rng.randint(0, 96) * 2 + 1}/64', g.dy(0, 2, (1, 2, 4))]
+        elif x < 0.72:
             prog = ['pat', t0, g.mono(defs)]
         else:
             prog = ['pat', t0, g.pat(defs)]
@@ -1010,6 +1033,8 @@ class Check(common.Check):
             elif p[0] == 'pat' and p[2][0] == 'mono':
                 m = p[2]
                 lines.append(f'mono {p[1]} {m[1]} {int(bool(m[2]))} {sx_binds(m[3])}')
+            elif p[0] == 'restart':
+                lines.append(f'restart {p[1]} {p[3]} {p[4]} {sx_pat(p[2])}')
             elif p[0] == 'replay':
                 lines.append(f'replay {p[1]} {sx_ev(p[2])} ({" ".join(d for d, _ in p[3])})')
             else:
@@ -1155,7 +1180,7 @@ class Check(common.Check):
     @staticmethod
     def top(case):
         p = case['prog']
-        return p[0] if p[0] in ('event', 'replay') else p[2][0]
+        return p[0] if p[0] in ('event', 'replay', 'restart') else p[2][0]
 
     def shrink(self, case, fails):
         def cands(prog):
@@ -1224,7 +1249,7 @@ class Check(common.Check):
                     for c in pc(t[2]):
                         yield t[:2] + [c]
             for c in pc(prog[2]):
-                yield ['pat', prog[1], c]
+                yield [prog[0], prog[1], c] + prog[3:]
         cur, steps = case, 0
         improved = True
         while improved and steps < 150:
@@ -1254,7 +1279,10 @@ class Check(common.Check):
                     walk(x)
         for c, o in zip(cases, outs):
             p = c['prog']
-            if p[0] == 'replay':
+            if p[0] == 'restart':
+                h['restart'] = h.get('restart', 0) + 1
+                walk(p[2])
+            elif p[0] == 'replay':
                 h['replay'] = h.get('replay', 0) + 1
             elif p[0] == 'event':
                 h['event'] += 1
